@@ -1,0 +1,11 @@
+//go:build !verif
+// +build !verif
+
+// Package crashpoint is a no-op in normal builds (see on.go, build tag `verif`).
+package crashpoint
+
+func Hit(site, file string) {}
+
+func Cut(site, file string, size int) (int, bool) { return 0, false }
+
+func Die() {}
